@@ -245,6 +245,12 @@ class Scene:
         self.group.remove_children([self.holes[h]])  # nothing of the hole has been read in this session
         self.holes.pop(h)
 
+    def _SaveHoleAgain(self, h, **_):
+        self.ws.save_entity(self.hole(h))
+
+    def _SetPublic(self, h, **_):
+        self.hole(h).public = False
+
     def _Protect(self, h, name="", **_):
         (self.hole(h) if name == "" else self._first_data(h, name)).allow_delete = False
 
@@ -320,7 +326,8 @@ class Scene:
         out = {}
         holes = self.holes if holes is None else holes
         for h, hole in sorted(holes.items()):
-            rec = {"names": None, "values": {}, "pgs": {}, "children": None, "ad": bool(hole.allow_delete), "data_ad": {}}
+            rec = {"names": None, "values": {}, "pgs": {}, "children": None, "ad": bool(hole.allow_delete), "data_ad": {},
+                   "pub": bool(hole.public)}
             try:
                 names = list(hole.get_data_list())
             except Exception as exc:  # pylint: disable=broad-except
